@@ -35,10 +35,10 @@ def close(a, b, scale):
 
 # ------------------------------------------------------------------------------------------------ state level
 @st.composite
-def state_case(draw):
-    n = draw(st.integers(3, 12))
+def state_case(draw, mid=False):
+    n = draw(st.integers(30, 64)) if mid else draw(st.integers(3, 12))
     d = draw(st.integers(1, min(3, n)))
-    L = draw(st.integers(1, min(5, max(1, n // 2))))
+    L = draw(st.integers(1, 8)) if mid else draw(st.integers(1, min(5, max(1, n // 2))))
     nK = draw(st.integers(1, L))
     leaf_of = list(range(L)) + draw(st.lists(st.integers(0, L - 1), min_size=n - L, max_size=n - L))
     leaf_of = [leaf_of[i] for i in draw(st.permutations(range(n)))]
@@ -49,7 +49,8 @@ def state_case(draw):
     return {"n": n, "d": d, "leaf_of": leaf_of, "cl_of_leaf": cl, "nK": nK,
             "K_max": nK + draw(st.sampled_from([2, 0, 1, 3, 0, 1])), "min_leaf": draw(st.sampled_from([1, 1, 1, 2, 3])), "explore": explore,
             "features": feats, "xseed": draw(gens.seeds), "grid": draw(st.sampled_from([6, 3, 2])),
-            "kernel": draw(st.sampled_from(["linear", "psd", "rbf", "indef", "tanh"])), "kseed": draw(gens.seeds)}
+            "kernel": draw(st.sampled_from(["linear", "psd", "rbf", "indef", "tanh"])), "kseed": draw(gens.seeds),
+            "variants": ["so", "cpp"] if mid else None}
 
 
 def build_state(c):
@@ -149,6 +150,8 @@ def oracle_state(case):
     kind = None
     pending = None
     for name, mod in VARIANTS.items():
+        if case.get("variants") and name not in case["variants"]:
+            continue
         Kc, Xc, Yc, Zc = K.copy(), X.copy(), Y.copy(), Z.copy()
         try:
             sp = mod.find_best_split(Kc, Xc, np.array(case["explore"], dtype=np.int64), Yc, Zc, case["nK"], state.K_max, L,
@@ -285,6 +288,7 @@ def route_mask(t, X, node):
 
 def subs():
     return [
+        Sub("states_mid", state_case(mid=True), oracle_state, 60, 2500, "states with 30-64 samples and up to 8 leaves (compiled variants)"),
         Sub("states", state_case(), oracle_state, 4000, 120000, "generated intermediate states x variants"),
         Sub("fits", fit_case(), oracle_fit, 500, 12000, "every find_best_split call of real fits x variants"),
     ]
